@@ -128,6 +128,12 @@ func (d *Ledger) ActAdversarial() {
 	// frequently start from a well-formed prefix so that deep paths are reached
 	if d.chance(50) {
 		hs := d.holdings()
+		if (fn == "MultiESDTNFTTransfer" || fn == "ESDTNFTTransfer" || fn == "ESDTTransfer") && d.chance(20) {
+			// the payability oracle FAILS for some account (a dependency error, not "no"): the answer is still a result or an error
+			if o := d.otherAcct(caller); d.W.Info(o).Kind != "junk" {
+				d.setOracle(o, []string{"err", "err", "yes"}[d.R.Intn(3)])
+			}
+		}
 		switch fn {
 		case "MultiESDTNFTTransfer":
 			cnt := d.advCount()
@@ -220,6 +226,36 @@ func (d *Ledger) ActAdversarial() {
 				args = [][]byte{pick.tok, nb(pick.nonce), d.amt(1), world.SysAddr}
 			}
 			rcpt = d.W.Addr(caller)
+		}
+	}
+	if role, gated := map[string]string{"ESDTNFTAddURI": "ESDTRoleNFTAddURI", "ESDTNFTUpdateAttributes": "ESDTRoleNFTUpdateAttributes",
+		"ESDTNFTAddQuantity": "ESDTRoleNFTAddQuantity", "ESDTNFTBurn": "ESDTRoleNFTBurn"}[fn]; gated && d.chance(60) {
+		// a role holder names its own token with a nonce written on MORE than eight bytes (the low 64 bits are zero, a small number,
+		// or the nonce of a holding): whatever the function makes of such a number, it answers with a result or an error.  Sometimes
+		// the system contract has first put a bare flag entry (no metadata) under the collection id itself for this account.
+		if a, tok, ok := d.roleHolder(role); ok && d.W.Info(a).Kind != "junk" {
+			caller, rcpt = a, d.W.Addr(a)
+			low := u64b(uint64(d.R.Intn(3)))
+			for _, h := range d.nftHoldings() {
+				if h.acct == a && bytes.Equal(h.tok, tok) && d.chance(50) {
+					low = u64b(h.nonce)
+					break
+				}
+			}
+			nonce := append([]byte{byte(1 + d.R.Intn(2))}, low...)
+			if d.chance(20) {
+				nonce = low
+			}
+			if d.chance(40) {
+				pc := &world.Call{Fn: "ESDTFreeze", Caller: d.W.Addr("esdtsc"), Rcpt: d.W.Addr(a), Args: [][]byte{tok}, Gas: 600000, Value: big.NewInt(0)}
+				d.record("exec", d.shardOfName(a), pc)
+			}
+			tail := args
+			if len(tail) > 3 {
+				tail = tail[:3]
+			}
+			args = append([][]byte{tok, nonce, d.amt(1)}, tail...)
+			plain = d.chance(70)
 		}
 	}
 	wrapped := false
